@@ -654,4 +654,165 @@ func (x *extractor) factsLocks() {
 		unlocked = found && len(held) == 0
 	}
 	x.set("ctl_findunit_rescan_unlocked", unlocked)
+	x.set("lock_leaks", x.lockLeaks([]string{"pkg/controlsvc", "pkg/workceptor"}))
+}
+
+// lockLeaks: in every block of every function of the given packages, a statement `m.Lock()` / `m.RLock()` must be paired, in the same
+// block, with `defer m.Unlock()` / `m.Unlock()` (same receiver text) before any statement that can return.  Reported:
+// "file:func:receiver" for every Lock after which a return is reachable first (a lock left held on that path), or which has
+// no Unlock in its block at all.
+func (x *extractor) lockLeaks(dirs []string) []string {
+	var out []string
+	hasReturn := func(n ast.Node) bool {
+		found := false
+		ast.Inspect(n, func(m ast.Node) bool {
+			switch m.(type) {
+			case *ast.FuncLit:
+				return false
+			case *ast.ReturnStmt:
+				found = true
+			}
+			return !found
+		})
+		return found
+	}
+	lockCall := func(st ast.Stmt, names ...string) (string, bool) {
+		var call *ast.CallExpr
+		switch v := st.(type) {
+		case *ast.ExprStmt:
+			call, _ = v.X.(*ast.CallExpr)
+		case *ast.DeferStmt:
+			call = v.Call
+		}
+		if call == nil || len(call.Args) != 0 {
+			return "", false
+		}
+		sel, ok := call.Fun.(*ast.SelectorExpr)
+		if !ok {
+			return "", false
+		}
+		for _, n := range names {
+			if sel.Sel.Name == n {
+				return x.str(sel.X), true
+			}
+		}
+		return "", false
+	}
+	// leaky: a return is reachable in these statements with recv not unlocked before it in its own or an enclosing block
+	var leaky func(list []ast.Stmt, recv string, unlocked bool) bool
+	leaky = func(list []ast.Stmt, recv string, unlocked bool) bool {
+		for _, st := range list {
+			if r, ok := lockCall(st, "Unlock", "RUnlock"); ok && r == recv {
+				if _, isDefer := st.(*ast.DeferStmt); !isDefer {
+					unlocked = true
+				}
+				continue
+			}
+			switch v := st.(type) {
+			case *ast.ReturnStmt:
+				if !unlocked {
+					return true
+				}
+			case *ast.BlockStmt:
+				if leaky(v.List, recv, unlocked) {
+					return true
+				}
+			case *ast.IfStmt:
+				if leaky(v.Body.List, recv, unlocked) {
+					return true
+				}
+				if v.Else != nil && leaky([]ast.Stmt{v.Else}, recv, unlocked) {
+					return true
+				}
+			case *ast.ForStmt:
+				if leaky(v.Body.List, recv, unlocked) {
+					return true
+				}
+			case *ast.RangeStmt:
+				if leaky(v.Body.List, recv, unlocked) {
+					return true
+				}
+			case *ast.CaseClause:
+				if leaky(v.Body, recv, unlocked) {
+					return true
+				}
+			case *ast.CommClause:
+				if leaky(v.Body, recv, unlocked) {
+					return true
+				}
+			case *ast.SwitchStmt:
+				if leaky(v.Body.List, recv, unlocked) {
+					return true
+				}
+			case *ast.TypeSwitchStmt:
+				if leaky(v.Body.List, recv, unlocked) {
+					return true
+				}
+			case *ast.SelectStmt:
+				if leaky(v.Body.List, recv, unlocked) {
+					return true
+				}
+			case *ast.LabeledStmt:
+				if leaky([]ast.Stmt{v.Stmt}, recv, unlocked) {
+					return true
+				}
+			}
+		}
+		return false
+	}
+	_ = hasReturn
+	for _, dir := range dirs {
+		ents, err := os.ReadDir(filepath.Join(x.repo, dir))
+		if err != nil {
+			return []string{"unknown"}
+		}
+		for _, e := range ents {
+			if !strings.HasSuffix(e.Name(), ".go") || strings.HasSuffix(e.Name(), "_test.go") || strings.HasPrefix(e.Name(), "mock_") {
+				continue
+			}
+			rel := filepath.Join(dir, e.Name())
+			f := x.file(rel)
+			if f == nil {
+				continue
+			}
+			for _, d := range f.Decls {
+				fd, ok := d.(*ast.FuncDecl)
+				if !ok || fd.Body == nil {
+					continue
+				}
+				ast.Inspect(fd.Body, func(n ast.Node) bool {
+					bl, ok := n.(*ast.BlockStmt)
+					if !ok {
+						return true
+					}
+					for i, st := range bl.List {
+						if _, isDefer := st.(*ast.DeferStmt); isDefer {
+							continue
+						}
+						recv, ok := lockCall(st, "Lock", "RLock")
+						if !ok || !strings.Contains(recv, "ock") {
+							continue
+						}
+						state := "no-unlock-in-block"
+						for _, later := range bl.List[i+1:] {
+							if r, ok := lockCall(later, "Unlock", "RUnlock"); ok && r == recv {
+								state = ""
+								break
+							}
+							if leaky([]ast.Stmt{later}, recv, false) {
+								state = "return-before-unlock"
+								break
+							}
+						}
+						if state != "" {
+							out = append(out, rel+":"+fd.Name.Name+":"+recv+":"+state)
+						}
+					}
+					return true
+				})
+			}
+		}
+	}
+	sort.Strings(out)
+	return out
 }
